@@ -15,7 +15,7 @@
    and not stated separately: the models index their embeddings by exactly these ids (sparse_combo.py:675-713)
    and C09 proves predictions row-wise in the ids. *)
 From Coq Require Import ZArith List Bool.
-From Batchie Require Import Lib.Sexp Generated.Consts Model.Encode Model.Screen Model.Reveal Model.Holdout
+From Batchie Require Import Lib.Sexp Generated.Consts Generated.SrcArith Model.Encode Model.Screen Model.Reveal Model.Holdout
   Proofs.C03Base Proofs.C03Screen Proofs.C12Reveal Proofs.C03Frozen Proofs.C03Witness.
 Import ListNotations.
 Open Scope Z_scope.
@@ -32,6 +32,16 @@ Proof. exact parent_frozen. Qed.
 Print Assumptions C03_parent_ids_are_its_mapping.
 
 (* REPAIRED construction: after any history on either half, mappings and ids are the parent's *)
+(* the variant of the model that the theorems below prove frozen IS the one the source implements:
+   the three booleans are read from the Screen(...) call sites of reveal_plates / mask_screen /
+   unmask_screen on every run (do they pass treatment_mapping=screen.treatment_mapping and
+   sample_mapping=screen.sample_mapping?) *)
+Theorem C03_source_carries_mappings :
+  {| carry_reveal := SRC_reveal_plates_carries_mappings; carry_mask := SRC_mask_screen_carries_mappings;
+     carry_unmask := SRC_unmask_screen_carries_mappings |} = carry_mappings true.
+Proof. reflexivity. Qed.
+Print Assumptions C03_source_carries_mappings.
+
 Theorem C03_ids_frozen : forall p sel test ops s,
   lifecycle (carry_mappings true) p sel test ops = Ok s -> frozen_to p s.
 Proof. exact ids_frozen. Qed.
